@@ -168,15 +168,55 @@ def operand_shape(tokens, dims, ell):
 
 
 def container(kind, items):
+    """A pytree of the given kind holding `items` as its leaves, in jax.tree.flatten order."""
     if kind == 'bare':
         return items[0]
-    if kind == 'list':
+    if kind in ('list', 'list1', 'list0'):
         return list(items)
-    if kind == 'dict':
+    if kind == 'tuple':
+        return tuple(items)
+    if kind in ('dict', 'dict1', 'dict0'):
         return {chr(ord('a') + k): v for k, v in enumerate(items)}
     if kind == 'nested':
         return {'p': items[0], 'q': list(items[1:])}
+    if kind == 'deep':
+        return {'p': {'q': [items[0]]}, 'r': tuple(items[1:])}
+    if kind == 'nested0':
+        return {'p': [], 'q': {}}
     raise ValueError(kind)
+
+
+# ----------------------------------------------------------------------------------------------
+# array library of the blocks and of the leaves ('bkind' / 'xkind' of a value case): jax.Array,
+# numpy.ndarray, or 'mixed' (numpy for the even block arrays / leaves, jax for the odd ones).  Both are
+# pytree leaves accepted by jnp.einsum; equinox stores a NumPy block array as it is.  Python nested
+# lists / scalars are not array leaves (a list is a pytree container, a scalar has no .shape: the
+# constructor's rank test does not accept them) - see `extra()`.
+
+KINDS = ['jax', 'numpy']
+
+
+def kind_of(spec, n: int) -> str:
+    if spec in (None, 'jax'):
+        return 'jax'
+    if spec == 'numpy':
+        return 'numpy'
+    if spec == 'mixed':
+        return 'numpy' if n % 2 == 0 else 'jax'
+    raise ValueError(spec)
+
+
+def as_kind(a, kind: str):
+    """The NumPy array `a` as an array of the given library (same dtype, same values)."""
+    im = impl()
+    if kind == 'numpy':
+        out = im['np'].array(a)
+        assert type(out) is im['np'].ndarray
+        return out
+    out = im['jnp'].asarray(a)
+    if str(out.dtype) != str(a.dtype):
+        raise AssertionError(f'jax array of dtype {out.dtype}, wanted {a.dtype}')
+    return out
 
 
 # ----------------------------------------------------------------------------------------------
@@ -219,12 +259,17 @@ def case_dtypes(case):
     return bdt, xdt, case.get('denB', 1), case.get('denx', 1), case.get('deny', 1)
 
 
+def block_shape(case, n):
+    """Shape of the n-th block array (a pytree without leaves still has its shared block array)."""
+    return case['leaves'][n]['shB'] if case['leaves'] else case['shB']
+
+
 def block_nums(case):
     """[(re numerators, im numerators or None)] per block array."""
     bdt, _, denB, _, _ = case_dtypes(case)
     out = []
     for n, dt in enumerate(bdt):
-        sh = case['leaves'][n]['shB']
+        sh = block_shape(case, n)
         re_ = nums_for(block_data(sh, n), denB, dt)
         im_ = nums_for(block_data(sh, n + 5), denB, dt) if dt_kind(dt) == 'c' else None
         out.append((re_, im_))
@@ -281,8 +326,8 @@ def build_op(case):
     bdt, xdt, denB, _, _ = case_dtypes(case)
     Bs, Bex = [], []
     for n, (re_, im_) in enumerate(block_nums(case)):
-        ex, a = exact_np(re_, im_, denB, leaves[n]['shB'], bdt[n])
-        B = jnp.asarray(a)
+        ex, a = exact_np(re_, im_, denB, block_shape(case, n), bdt[n])
+        B = as_kind(a, kind_of(case.get('bkind'), n))
         if str(B.dtype) != bdt[n]:
             raise AssertionError(f'blocks dtype {B.dtype}, wanted {bdt[n]}')
         Bs.append(B)
@@ -310,10 +355,11 @@ def struct_obs(tree):
     return {'tree': str(treedef), 'leaves': [[list(lf.shape), str(lf.dtype)] for lf in leaves]}
 
 
-def dense_matrix(op):
-    """Columns op.mv(e_k) over the flattened input pytree (no as_matrix: independent of it)."""
+def dense_matrix(op, xkind=None):
+    """Columns op.mv(e_k) over the flattened input pytree (no as_matrix: independent of it); the unit
+    vectors are arrays of the library `xkind`."""
     im = impl()
-    jax, jnp, np = im['jax'], im['jnp'], im['np']
+    jax, np = im['jax'], im['np']
     ins, treedef = jax.tree.flatten(op.in_structure())
     sizes = [prod(s.shape) for s in ins]
     cols = []
@@ -324,7 +370,7 @@ def dense_matrix(op):
                 a = np.zeros(sizes[lj], t.dtype)
                 if lj == li:
                     a[k] = 1
-                leaves.append(jnp.asarray(a.reshape(t.shape)))
+                leaves.append(as_kind(a.reshape(t.shape), kind_of(xkind, lj)))
             y = op.mv(jax.tree.unflatten(treedef, leaves))
             cols.append(np.concatenate([np.asarray(v).ravel() for v in jax.tree.leaves(y)]))
     if not cols:
@@ -333,20 +379,55 @@ def dense_matrix(op):
     return [numlist(row) for row in M]
 
 
-def apply_flat(op, datas, den=1):
+def matrix_rows(A):
+    """Rows of a 2-d array as lists of entries ([] for a matrix without rows or without columns)."""
+    np = impl()['np']
+    A = np.asarray(A)
+    if A.ndim != 2:
+        raise ValueError(f'as_matrix returned an array of shape {A.shape}')
+    if A.shape[0] == 0 or A.shape[1] == 0:
+        return []
+    return [numlist(row) for row in A]
+
+
+def call_mv(op, x, how):
+    """op.mv(x) executed eagerly ('eager'), inside jax.jit with the operator closed over ('jit': its
+    blocks are constants of the library they were given in) or with the operator as an argument of
+    the jitted function ('jitarg': its blocks are tracers)."""
+    jax = impl()['jax']
+    if how in (None, 'eager'):
+        return op.mv(x)
+    if how == 'call':
+        return op(x)
+    if how == 'jit':
+        return jax.jit(lambda v: op.mv(v))(x)
+    if how == 'jitarg':
+        return jax.jit(lambda o, v: o.mv(v))(op, x)
+    raise ValueError(how)
+
+
+def apply_flat(op, datas, den=1, xkind=None, how=None):
     """op.mv on the leaves datas[k] = (re numerators, im numerators or None) / den, in the dtypes of
-    op.in_structure(); observation: [shape, entries] per output leaf and the output dtypes."""
+    op.in_structure() and as arrays of the library `xkind`; observation: [shape, entries] per output
+    leaf and the output dtypes."""
     im = impl()
-    jax, jnp, np = im['jax'], im['jnp'], im['np']
+    jax, np = im['jax'], im['np']
     ins, treedef = jax.tree.flatten(op.in_structure())
     leaves = []
-    for (re_, im_), s in zip(datas, ins):
+    for n, ((re_, im_), s) in enumerate(zip(datas, ins)):
         if im_ is not None and not np.issubdtype(s.dtype, np.complexfloating):
             im_ = None
-        leaves.append(jnp.asarray(exact_np(re_, im_, den, s.shape, s.dtype, strict=False)[1]))
-    y = op.mv(jax.tree.unflatten(treedef, leaves))
+        leaves.append(as_kind(exact_np(re_, im_, den, s.shape, s.dtype, strict=False)[1], kind_of(xkind, n)))
+    x = jax.tree.unflatten(treedef, leaves)
+    y = call_mv(op, x, how)
+    if jax.tree.structure(y) != treedef:
+        raise StructureMismatch(f'the output pytree {jax.tree.structure(y)} does not have the structure of the input {treedef}')
     outs = jax.tree.leaves(y)
     return [[list(v.shape), numlist(v)] for v in outs], [str(v.dtype) for v in outs]
+
+
+class StructureMismatch(Exception):
+    pass
 
 
 # ----------------------------------------------------------------------------------------------
@@ -416,6 +497,9 @@ class Check(PropertyCheck):
         'correspondence harness (harness/c14.py): real _get_transposed_subscripts / constructor / mv / .T on the '
         'enumerated strings and shapes; NumPy einsum as the independent reference of the oracle',
         'jax.tree.flatten/map leaf order (sorted dict keys) for pytrees of leaves and of block arrays',
+        'the array library of the blocks and of the leaves (jax.Array / numpy.ndarray), the execution mode (eager, jit) '
+        'and as_matrix are not modelled: the Z model is compared on the values, which must be the same for every '
+        'library and mode; that a legal case does not raise is checked by the oracle (implementation side)',
     ]
 
     # ------------------------------------------------------------------------------------------
@@ -667,6 +751,92 @@ class Check(PropertyCheck):
                     out.append(self.dtype_case(sub, layout, b, x, x64))
         return out
 
+    # ------------------------------------------------------------------------------------------
+    # array library of the blocks and of the leaves x every branch of mv x execution mode
+
+    KIND_SUBS = [(DEFAULT_SUBS, True), ('ikj,kj->ki', False), ('...ij,...j->...i', False), ('ji...,j...->i...', False),
+                 (DEFAULT_SUBS, False), ('kij...,kj...->ki...', False)]
+    # (container, mode, number of leaves): the three branches of mv - a single leaf; a container (of one
+    # leaf or more, flat or nested) with one shared block array; a container with one block array per leaf
+    KIND_LAYOUTS = [('bare', 'shared', 1), ('bare', 'perleaf', 1),
+                    ('list1', 'shared', 1), ('dict1', 'shared', 1), ('list', 'shared', 2), ('tuple', 'shared', 2),
+                    ('dict', 'shared', 2), ('nested', 'shared', 3), ('deep', 'shared', 3),
+                    ('list1', 'perleaf', 1), ('dict1', 'perleaf', 1), ('list', 'perleaf', 2), ('tuple', 'perleaf', 2),
+                    ('dict', 'perleaf', 2), ('nested', 'perleaf', 3), ('deep', 'perleaf', 3)]
+    EXECS = [None, 'jit', 'jitarg']
+
+    def kind_case(self, sub, layout, bkind, xkind, how=None, asm=False):
+        s, default = sub
+        cont, md, nl = layout
+        l, r, o = spec_split(s)
+        d = {'i': 2, 'j': 3, 'k': 2}
+        leaves = []
+        for k in range(nl):
+            ex = [[2], [], [2, 2]][k] if '...' in r else []
+            dk = d if md == 'shared' or k == 0 else [{'i': 3, 'j': 2, 'k': 2}, {'i': 2, 'j': 2, 'k': 3}][k - 1]
+            leaves.append({'shB': operand_shape(l, dk, []), 'shx': operand_shape(r, dk, ex), 'shy': operand_shape(o, dk, ex)})
+        c = {'kind': 'values', 'subs': s, 'mode': md, 'container': cont, 'leaves': leaves, 'cls': 'kind',
+             'bkind': bkind, 'xkind': xkind}
+        if how:
+            c['exec'] = how
+        if asm:
+            c['asm'] = True
+        if default:
+            c['default'] = True
+        return c
+
+    def kind_cases(self):
+        """Every layout x library of the blocks x library of the leaves ('mixed' where there are several
+        block arrays / leaves); the string, the execution mode and as_matrix rotate (thorough: all)."""
+        quick = self.tier == 'quick'
+        out = []
+        n = 0
+        for li, layout in enumerate(self.KIND_LAYOUTS):
+            cont, md, nl = layout
+            bkinds = KINDS + (['mixed'] if md == 'perleaf' and nl > 1 else [])
+            xkinds = KINDS + (['mixed'] if nl > 1 else [])
+            for bkind in bkinds:
+                for xkind in xkinds:
+                    n += 1
+                    if quick:
+                        combos = [(self.KIND_SUBS[n % len(self.KIND_SUBS)], self.EXECS[(n // 2) % 3], n % 2 == 0),
+                                  (self.KIND_SUBS[(n + 3) % len(self.KIND_SUBS)], None, n % 2 == 1)]
+                    else:
+                        combos = [(sub, how, True) for sub in self.KIND_SUBS for how in self.EXECS]
+                    for sub, how, asm in combos:
+                        out.append(self.kind_case(sub, layout, bkind, xkind, how, asm))
+        return out
+
+    def empty_cases(self):
+        """Input pytrees without leaves: `each leaf` is vacuous, the operator and its transpose map the
+        pytree to itself; shared block array of either library, or no block array.  (No as_matrix here:
+        core.py's generic as_matrix has no dtype for a 0 x 0 matrix - not dense.py's concern.)"""
+        out = []
+        for cont in ('dict0', 'list0', 'nested0'):
+            for s in (DEFAULT_SUBS, 'ikj,kj->ki'):
+                l, _, _ = spec_split(s)
+                for mode, bkind in (('shared', 'jax'), ('shared', 'numpy'), ('perleaf', 'jax')):
+                    c = {'kind': 'values', 'subs': s, 'mode': mode, 'container': cont, 'leaves': [], 'cls': 'empty',
+                         'bkind': bkind, 'xkind': 'jax',
+                         'shB': operand_shape(l, {'i': 2, 'j': 3, 'k': 2}, [])}
+                    out.append(c)
+        return out
+
+    @staticmethod
+    def rotate_kinds(cases):
+        """The older case classes take the libraries of their blocks and leaves in rotation (no new
+        einsum compilation: jnp.einsum receives arrays of the same shapes and dtypes)."""
+        table = [('jax', 'jax'), ('numpy', 'jax'), ('jax', 'numpy'), ('numpy', 'numpy'), ('mixed', 'mixed')]
+        for n, c in enumerate(cases):
+            if 'bkind' in c:
+                continue
+            b, x = table[(n + zlib.crc32(c['subs'].encode())) % len(table)]
+            if b != 'jax':
+                c['bkind'] = b
+            if x != 'jax':
+                c['xkind'] = x
+        return cases
+
     def cases(self):
         cases = [{'kind': 'strings', 'subs': b} for b in self.string_batches()]
         for s in MALFORMED:
@@ -675,10 +845,19 @@ class Check(PropertyCheck):
         for ranks in ([1], [0], [2, 1], [3, 2], [1, 1], [3]):
             for s in ('ij,j->i', 'ij...,j...->i...', 'ij,j', 'i j,j->i'):
                 cases.append({'kind': 'string1', 'subs': s, 'via': 'ctor', 'ranks': ranks})
-        cases += self.value_cases()
-        cases += self.rank_cases()
-        cases += self.dtype_cases()
+        cases += self.rotate_kinds(self.value_cases())
+        cases += self.rotate_kinds(self.rank_cases())
+        cases += self.rotate_kinds(self.dtype_cases())
+        cases += self.kind_cases()
+        cases += self.empty_cases()
         self.stats['strings_compared'] = sum(len(c['subs']) for c in cases if c['kind'] == 'strings')
+        kinds = {}
+        for c in cases:
+            if c['kind'] == 'values':
+                k = f'blocks={c.get("bkind", "jax")} leaves={c.get("xkind", "jax")} exec={c.get("exec", "eager")}'
+                kinds[k] = kinds.get(k, 0) + 1
+        self.stats['value_cases_by_array_library'] = kinds
+        self.stats['value_cases_with_as_matrix'] = sum(1 for c in cases if c.get('asm'))
         self.exhaustive = True
         return cases
 
@@ -701,7 +880,17 @@ class Check(PropertyCheck):
             'layouts (single leaf or list/dict/nested pytree with mixed leaf dtypes, shared block or one block per leaf '
             'with mixed block dtypes) x 4 strings (quick: one per combination, rotating); entries are half-integers '
             '(float/complex dtypes, imaginary parts included) or integers + {1,2,3}*2^-31 (64-bit dtypes), compared '
-            'exactly. Non-trivial: batches containing an accepted string, malformed strings, all value cases.'
+            'exactly. array kinds: 16 layouts covering the three branches of mv (single array; container of 1, 2 or 3 '
+            'leaves - list / tuple / dict / nested / deeper - with one shared block array; the same containers with one '
+            'block array per leaf) x blocks as jax.Array / numpy.ndarray / mixed x leaves as jax.Array / numpy.ndarray / '
+            'mixed (complete product), over 6 strings, execution eager / jax.jit with the operator closed over / jax.jit '
+            'with the operator as argument, op(x) next to op.mv(x), and op.as_matrix() / op.T.as_matrix() against the '
+            'matrices built column by column (quick: 2 rotating picks per combination, thorough: all); the value, rank and '
+            'dtype classes above also take the libraries of their blocks and leaves in rotation (5 combinations). '
+            'empty: input pytrees without leaves ({}, [], nested) with a shared jax / NumPy block array or no block '
+            'array. Every exception raised by furax on these legal cases (constructor, mv, in/out_structure, .T, as_matrix) '
+            'is an oracle failure with the case as replay. '
+            'Non-trivial: batches containing an accepted string, malformed strings, all value cases.'
         )
 
     def distribution(self, cases):
@@ -739,25 +928,35 @@ class Check(PropertyCheck):
         return self.run_values(case)
 
     def run_values(self, case):
+        """Every call into furax is a labelled step; an exception of a step is recorded in the
+        observation (`error`) and reported by the oracle as a violation: the cases are legal
+        constructions on strings with one contracted and one free block axis."""
         im = impl()
         np = im['np']
         obs = {}
         bdt, xdt, denB, denx, deny = case_dtypes(case)
+        xk, how = case.get('xkind'), case.get('exec')
+        step = 'constructor'
         try:
             op, Bs, Bex = build_op(case)
+            obs['subs'] = op.subscripts
+            xs = leaf_nums(case, 'x')
+            ys = leaf_nums(case, 'y')
+            step = 'op.mv(x)' + (f' [{how}]' if how else '')
+            obs['fwd'], obs['fwd_dt'] = apply_flat(op, xs, denx, xk, how)
+            if how:
+                # the same application through the other entry points: op(x) eagerly
+                step = 'op(x)'
+                obs['fwd_call'], _ = apply_flat(op, xs, denx, xk, 'call')
+            step = 'op.in_structure()'
+            obs['in'] = struct_obs(op.in_structure())
+            step = 'op.out_structure()'
+            obs['out'] = struct_obs(op.out_structure())
         except AssertionError:
             raise
         except Exception as e:
-            return {'ctor_error': type(e).__name__}
-        obs['subs'] = op.subscripts
-        xs = leaf_nums(case, 'x')
-        ys = leaf_nums(case, 'y')
-        try:
-            obs['fwd'], obs['fwd_dt'] = apply_flat(op, xs, denx)
-        except Exception as e:
-            return {'mv_error': type(e).__name__, 'msg': str(e)[:200]}
-        obs['in'] = struct_obs(op.in_structure())
-        obs['out'] = struct_obs(op.out_structure())
+            obs['error'] = {'step': step, 'type': type(e).__name__, 'msg': (str(e).splitlines() or [''])[0][:200]}
+            return obs
         # reference for the first clause of the property: einsum(subscripts, blocks, leaf) per leaf,
         # NumPy in float64/complex128 on the exact values, in the dtype JAX's promotion gives
         ref, exp_dt = [], []
@@ -778,26 +977,45 @@ class Check(PropertyCheck):
         except Exception as e:
             obs['T'] = {'err': type(e).__name__}
             return obs
-        obs['T'] = t.subscripts
-        obs['T_in'] = struct_obs(t.in_structure())
         try:
+            step = 'op.T.subscripts'
+            obs['T'] = t.subscripts
+            step = 'op.T.in_structure()'
+            obs['T_in'] = struct_obs(t.in_structure())
+            step = 'op.T.out_structure()'
             obs['T_out'] = struct_obs(t.out_structure())
-            obs['bwd'], obs['bwd_dt'] = apply_flat(t, ys, deny)
+            step = 'op.T.mv(y)' + (f' [{how}]' if how else '')
+            obs['bwd'], obs['bwd_dt'] = apply_flat(t, ys, deny, xk, how)
             # dense matrices column by column (quick tier: for inputs and outputs of at most 32 entries;
             # the bilinear identity <op x, y> = <x, op.T y> is checked by the oracle for every case)
             nin = sum(prod(sh) for sh, _ in obs['in']['leaves'])
             nout = sum(prod(sh) for sh, _ in obs['out']['leaves'])
             if self.tier != 'quick' or max(nin, nout) <= 32 or case.get('dense'):
-                obs['M'] = dense_matrix(op)
-                obs['MT'] = dense_matrix(t)
+                step = 'op.mv(e_k) (matrix of op column by column)'
+                obs['M'] = dense_matrix(op, xk)
+                step = 'op.T.mv(e_k) (matrix of op.T column by column)'
+                obs['MT'] = dense_matrix(t, xk)
+            if case.get('asm'):
+                # as_matrix runs mv on traced unit vectors (the blocks stay what they were given as)
+                step = 'op.as_matrix()'
+                obs['AM'] = matrix_rows(op.as_matrix())
+                step = 'op.T.as_matrix()'
+                obs['AMT'] = matrix_rows(t.as_matrix())
+                if 'M' not in obs:
+                    obs['M'] = dense_matrix(op, xk)
+                    obs['MT'] = dense_matrix(t, xk)
+            step = 'op.T.T'
             tt = t.T
             obs['TT'] = tt.subscripts
-            obs['TT_fwd'], _ = apply_flat(tt, xs, denx)
+            step = 'op.T.T.mv(x)'
+            obs['TT_fwd'], _ = apply_flat(tt, xs, denx, xk, how)
             obs['same_blocks'] = bool(t.blocks is op.blocks) or all(
                 a is b for a, b in zip(flat_leaves(t.blocks), flat_leaves(op.blocks))
             )
+        except AssertionError:
+            raise
         except Exception as e:
-            obs['T_error'] = f'{type(e).__name__}: {str(e)[:200]}'
+            obs['error'] = {'step': step, 'type': type(e).__name__, 'msg': (str(e).splitlines() or [''])[0][:200]}
         return obs
 
     def model_term(self, case):
@@ -819,7 +1037,7 @@ class Check(PropertyCheck):
         terms = []
         for bp, xp in self.parts(case):
             # real / imaginary parts of the blocks and of the leaves (zero where an array is real)
-            Bs = [carr(leaves[n]['shB'], b[bp] if b[bp] is not None else [0] * len(b[0])) for n, b in enumerate(bn)]
+            Bs = [carr(block_shape(case, n), b[bp] if b[bp] is not None else [0] * len(b[0])) for n, b in enumerate(bn)]
             xs = [carr(lf['shx'], xn[n][xp] if xn[n][xp] is not None else [0] * len(xn[n][0])) for n, lf in enumerate(leaves)]
             bl = f'(PerLeaf {clist(Bs)})' if case['mode'] == 'perleaf' else f'(Shared {Bs[0]})'
             terms.append(f'observe_op {cstr(case["subs"])} {bl} {clist(xs)} {clist(ys)}')
@@ -940,20 +1158,26 @@ class Check(PropertyCheck):
                 return f'constructor stored {obs!r} for {s!r}'
             return None
         # values
+        if 'error' in obs:
+            e = obs['error']
+            if e['type'] == 'StructureMismatch':
+                return f'{e["step"]} on a legal operator ({self.describe(case)}): {e["msg"]}'
+            return (f'{e["step"]} raised {e["type"]} on a legal operator ({self.describe(case)}): the operator must apply '
+                    f'einsum(subscripts, blocks, leaf) to each leaf and its transpose must be the adjoint [{e["msg"]}]')
         if 'fwd' not in obs:
             return f'einsum/constructor failed on an accepted string: {obs}'
         if obs.get('subs') != case['subs'].replace(' ', ''):
             return f'the constructor stored the subscripts {obs.get("subs")!r}, expected {case["subs"]!r}'
         if obs['fwd'] != obs.get('ref_fwd'):
             return f'mv differs from einsum(subscripts, blocks, leaf) per leaf: {obs["fwd"]} vs {obs.get("ref_fwd")}'
+        if 'fwd_call' in obs and obs['fwd_call'] != obs['fwd']:
+            return f'op(x) executed eagerly differs from op.mv(x) [{case.get("exec")}]: {obs["fwd_call"]} vs {obs["fwd"]}'
         if obs.get('fwd_dt') != obs.get('exp_dt'):
             return f'mv returns dtypes {obs.get("fwd_dt")}, einsum(subscripts, blocks, leaf) has {obs.get("exp_dt")}'
         if [d for _, d in obs['out']['leaves']] != obs.get('exp_dt'):
             return f'out_structure has dtypes {obs["out"]["leaves"]}, einsum(subscripts, blocks, leaf) has {obs.get("exp_dt")}'
         if isinstance(obs.get('T'), dict):
             return f'transpose raised {obs["T"]} on a string with one contracted and one free block axis'
-        if 'T_error' in obs:
-            return f'the transposed operator fails: {obs["T_error"]}'
         # blocks of a wider dtype than the leaf promote the output, and the transpose maps it to
         # the promoted dtype: shapes and tree are compared there, dtypes only for equal dtypes
         nodt = (lambda st: {'tree': st['tree'], 'leaves': [sh for sh, _ in st['leaves']]}) if 'bdt' in case else (lambda st: st)
@@ -964,6 +1188,11 @@ class Check(PropertyCheck):
             Mt = [list(r) for r in zip(*M)] if M else []
             if MT != Mt:
                 return f'matrix of op.T {MT} is not the transpose of the matrix of op {M} (op.T.subscripts = {obs["T"]!r})'
+        if 'AM' in obs:
+            if obs['AM'] != obs['M']:
+                return f'op.as_matrix() {obs["AM"]} differs from the matrix of op.mv column by column {obs["M"]}'
+            if obs['AMT'] != obs['MT']:
+                return f'op.T.as_matrix() {obs["AMT"]} differs from the matrix of op.T.mv column by column {obs["MT"]}'
         _, _, _, denx, deny = case_dtypes(case)
         lhs = pairing(obs['fwd'], leaf_nums(case, 'y'), deny)
         rhs = pairing(obs['bwd'], leaf_nums(case, 'x'), denx)
@@ -977,8 +1206,16 @@ class Check(PropertyCheck):
             return 'the transpose does not reuse the block data'
         return None
 
+    @staticmethod
+    def describe(case):
+        return (f'subscripts {case["subs"]!r}, {case["mode"]} blocks [{case.get("bkind", "jax")}], input {case["container"]} '
+                f'of {len(case["leaves"])} leaves [{case.get("xkind", "jax")}]')
+
     def finding_key(self, case, obs):
-        """Input class of a failure: D1 = a repeated letter in the blocks' subscript."""
+        """Input class of a failure: D1 = a repeated letter in the blocks' subscript; an input pytree
+        without leaves."""
+        if case['kind'] == 'values' and not case['leaves']:
+            return 'dense-mv-input-pytree-without-leaves'
         s = None
         if case['kind'] == 'strings':
             s = next((x for x, o in zip(case['subs'], obs) if self.check_string(x, o)), None)
@@ -1017,7 +1254,26 @@ class Check(PropertyCheck):
                     'T_out_equals_in': list(t.out_structure().shape) == shx,
                 }
             )
+        # Python nested lists / scalars are not array leaves for this operator (recorded, not judged): a
+        # list is a pytree container whose scalar leaves have no .shape (constructor) or rank 0 (einsum)
+        f32 = jnp.float32
+
+        def outcome(f):
+            try:
+                f()
+                return 'accepted'
+            except Exception as e:
+                return type(e).__name__
+
+        B = jnp.ones((2, 3), f32)
+        pylists = {
+            'blocks=[[1.,2.,3.],[4.,5.,6.]] (constructor)': outcome(
+                lambda: im['D']([[1.0, 2.0, 3.0], [4.0, 5.0, 6.0]], jax.ShapeDtypeStruct((3,), f32), 'ij,j->i')),
+            'x=[1.,2.,3.] (mv, in_structure a (3,) array)': outcome(
+                lambda: im['D'](B, jax.ShapeDtypeStruct((3,), f32), 'ij,j->i').mv([1.0, 2.0, 3.0])),
+        }
         return {
+            'python_lists_as_blocks_or_leaves': pylists,
             'boundary_blocks_ellipsis_broadcast_over_leaf': rows,
             'note': 'outside wf_shapes of Props/C14.v (leaf ellipsis dimensions must contain the blocks\'); '
             'reported to the lead as a candidate finding, not alarmed on',
